@@ -281,8 +281,9 @@ func r05a(c *core.Ctx) {
 	if st != nil {
 		ok := false
 		core.EachInstr(st, func(_ *ssa.BasicBlock, _ int, in ssa.Instruction) {
-			if bo, isB := in.(*ssa.BinOp); isB && bo.Op == token.LEQ {
-				if k, isC := core.ConstInt(bo.Y); isC && k == 65535 && strings.Contains(core.Expr(bo.X), "c.nextQid") {
+			if bo, isB := in.(*ssa.BinOp); isB {
+				// nextQid(+reserved) <= 65535 in any spelling: the negation of 65535 < nextQid(+reserved)
+				if cm, isCmp := core.CmpOf(bo); isCmp && cm.Op == "<" && cm.Neg && cm.X == "65535" && strings.Contains(cm.Y, "c.nextQid") {
 					ok = true
 				}
 			}
@@ -748,6 +749,10 @@ func r06c(c *core.Ctx) {
 		switch core.CallName(cc) {
 		case "io.ReadFull":
 			fulls = append(fulls, cc)
+		case "io.ReadAtLeast":
+			if isFullRead(cc) {
+				fulls = append(fulls, cc)
+			}
 		case core.M("internal/dnsmsg.UnpackMsg"):
 			unpack = cc
 		}
@@ -880,6 +885,19 @@ func truthConds(v ssa.Value) []string {
 // condListFull lists dominating conditions of b including the branch that leads into b from its idom chain.
 func condListFull(b *ssa.BasicBlock) string {
 	return condList(b)
+}
+
+// isFullRead: io.ReadFull(r, buf) or io.ReadAtLeast(r, buf, len(buf)).
+func isFullRead(call *ssa.Call) bool {
+	switch core.CallName(call) {
+	case "io.ReadFull":
+		return true
+	case "io.ReadAtLeast":
+		if lc, ok := call.Call.Args[2].(*ssa.Call); ok && core.CallName(lc) == "builtin.len" {
+			return sameBuffer(lc.Call.Args[0], call.Call.Args[1])
+		}
+	}
+	return false
 }
 
 // R05g: the three places that decide when a pipelined connection is worn out agree. addQueueC refuses a new id when
